@@ -423,16 +423,20 @@ def corruption_self_test(chk, plan_lines):
             muts.append(("drop_comment_word", rng.choice(words)))
         if inner:
             muts.append(("drop_inner_comma", rng.choice(inner)))
-        if len(code) > 3 and not (t["cfg"]["sort"] or t["cfg"]["merge"]):
-            muts.append(("swap_tokens", rng.choice(code[:-1])))
+        # two identifiers / literals with different text: exchanging them is never layout (a swap that involves
+        # punctuation can coincide with a legal drop/add of an optional token)
+        names = [k for k in code if t["out"][k]["k"] in ("TerminalIdentifier", "TerminalLiteralNumber", "TerminalShortString", "TerminalString")]
+        if len(names) > 1 and not (t["cfg"]["sort"] or t["cfg"]["merge"]):
+            k1 = rng.choice(names)
+            others = [k for k in names if t["out"][k].get("t") != t["out"][k1].get("t")]
+            if others:
+                muts.append(("swap_tokens", (k1, rng.choice(others))))
         for name, k in muts:
             c = json.loads(json.dumps(t))
             c["id"] = f"{t['id']}#{name}"
             c["isec"], c["osec"] = [], []  # indices would be off; sections are not needed for rejection
             if name == "swap_tokens":
-                k2 = k + 1
-                if c["out"][k] == c["out"][k2] or (c["out"][k]["k"], c["out"][k]["t"]) == (c["out"][k2]["k"], c["out"][k2]["t"]):
-                    continue
+                k, k2 = k
                 c["out"][k], c["out"][k2] = c["out"][k2], c["out"][k]
             else:
                 del c["out"][k]
